@@ -25,25 +25,37 @@ type cmsHandle interface {
 
 type cmsMem struct{ s *gostatix.CountMinSketch }
 
-func (h cmsMem) Update(d []byte, c uint64) error       { h.s.Update(d, c); return nil }
-func (h cmsMem) UpdateOnce(d []byte)                   { h.s.UpdateOnce(d) }
+func (h cmsMem) Update(d []byte, c uint64) error {
+	viaScratch(d, func(a []byte) { h.s.Update(a, c) })
+	return nil
+}
+func (h cmsMem) UpdateOnce(d []byte)                   { viaScratch(d, func(a []byte) { h.s.UpdateOnce(a) }) }
 func (h cmsMem) UpdateString(d string, c uint64) error { h.s.UpdateString(d, c); return nil }
-func (h cmsMem) Count(d []byte) (uint64, error)        { return h.s.Count(d), nil }
-func (h cmsMem) CountString(d string) (uint64, error)  { return h.s.CountString(d), nil }
-func (h cmsMem) Export() ([]byte, error)               { return h.s.Export() }
-func (h cmsMem) Merge(o cmsHandle) error               { return h.s.Merge(o.(cmsMem).s) }
-func (h cmsMem) Equals(o cmsHandle) (bool, error)      { return h.s.Equals(o.(cmsMem).s), nil }
+func (h cmsMem) Count(d []byte) (n uint64, err error) {
+	viaScratch(d, func(a []byte) { n = h.s.Count(a) })
+	return
+}
+func (h cmsMem) CountString(d string) (uint64, error) { return h.s.CountString(d), nil }
+func (h cmsMem) Export() ([]byte, error)              { return h.s.Export() }
+func (h cmsMem) Merge(o cmsHandle) error              { return h.s.Merge(o.(cmsMem).s) }
+func (h cmsMem) Equals(o cmsHandle) (bool, error)     { return h.s.Equals(o.(cmsMem).s), nil }
 
 type cmsRedis struct{ s *gostatix.CountMinSketchRedis }
 
-func (h cmsRedis) Update(d []byte, c uint64) error       { return h.s.Update(d, c) }
-func (h cmsRedis) UpdateOnce(d []byte)                   { h.s.UpdateOnce(d) }
+func (h cmsRedis) Update(d []byte, c uint64) (err error) {
+	viaScratch(d, func(a []byte) { err = h.s.Update(a, c) })
+	return
+}
+func (h cmsRedis) UpdateOnce(d []byte)                   { viaScratch(d, func(a []byte) { h.s.UpdateOnce(a) }) }
 func (h cmsRedis) UpdateString(d string, c uint64) error { return h.s.UpdateString(d, c) }
-func (h cmsRedis) Count(d []byte) (uint64, error)        { return h.s.Count(d) }
-func (h cmsRedis) CountString(d string) (uint64, error)  { return h.s.CountString(d) }
-func (h cmsRedis) Export() ([]byte, error)               { return h.s.Export() }
-func (h cmsRedis) Merge(o cmsHandle) error               { return h.s.Merge(cmsUnder(o)) }
-func (h cmsRedis) Equals(o cmsHandle) (bool, error)      { return h.s.Equals(cmsUnder(o)) }
+func (h cmsRedis) Count(d []byte) (n uint64, err error) {
+	viaScratch(d, func(a []byte) { n, err = h.s.Count(a) })
+	return
+}
+func (h cmsRedis) CountString(d string) (uint64, error) { return h.s.CountString(d) }
+func (h cmsRedis) Export() ([]byte, error)              { return h.s.Export() }
+func (h cmsRedis) Merge(o cmsHandle) error              { return h.s.Merge(cmsUnder(o)) }
+func (h cmsRedis) Equals(o cmsHandle) (bool, error)     { return h.s.Equals(cmsUnder(o)) }
 
 // cmsMulti routes every operation of a Redis sketch through a randomly chosen handle: the creating
 // one or one re-attached from the metadata key (handle-local state must not matter: C09)
